@@ -1,6 +1,7 @@
-(** C08 — property theorems only (proved in Mgr/SortOrderProofs.v and Mgr/LevelSwapProofs.v). *)
-From Coq Require Import List Arith Permutation.
+(** C08 — property theorems only (proved in Mgr/SortOrderProofs.v and Mgr/LevelSwap{Inv,WF,Sem,Proofs,Order}.v). *)
+From Coq Require Import List Arith Permutation NArith PArith FMapPositive.
 From OxiVerif Require Import Mgr.SortOrder Mgr.SortOrderProofs.
+From OxiVerif Require Import DD.Table DD.TableProofs Mgr.LevelSwap Mgr.LevelSwapSem Mgr.LevelSwapProofs Mgr.LevelSwapOrder.
 Import ListNotations.
 
 (** ** sort_order: from the requested relative order to a target permutation *)
@@ -119,3 +120,148 @@ Theorem C08_cb_done_sorted : forall s0 st,
   sorted (cb_seq st) /\ Permutation (cb_seq st) s0.
 Proof. exact cb_done_sorted. Qed.
 Print Assumptions C08_cb_done_sorted.
+
+(** ** level_swap / level_down on two adjacent levels of a BDD (model: Mgr/LevelSwap.v) *)
+
+(* the table after the swap is well-formed again: ordered, reduced, per-level unique,
+   stored level numbers up to date, variable/level maps mutually inverse permutations *)
+Theorem C08_level_swap_wf : forall s i,
+  WF s -> s_kind s = KBdd -> S i < nlevels s -> WF (level_swap s i).
+Proof. exact level_swap_wf. Qed.
+Print Assumptions C08_level_swap_wf.
+
+(* the maps are those of before with the entries of levels i and i+1 exchanged *)
+Theorem C08_level_swap_maps : forall s i, S i < nlevels s ->
+  s_l2v (level_swap s i) = swap_adj i (s_l2v s)
+  /\ s_v2l (level_swap s i) = map (swap_idx i) (s_v2l s)
+  /\ (forall l, nth_error (s_l2v (level_swap s i)) l = nth_error (s_l2v s) (swap_idx i l))
+  /\ (forall v, nth_error (s_v2l (level_swap s i)) v = option_map (swap_idx i) (nth_error (s_v2l s) v)).
+Proof. exact level_swap_maps. Qed.
+Print Assumptions C08_level_swap_maps.
+
+(* the handle list is unchanged and every handle's node is still stored under its id *)
+Theorem C08_level_swap_handles : forall s i,
+  WF s -> s_kind s = KBdd -> S i < nlevels s ->
+  s_handles (level_swap s i) = s_handles s
+  /\ forall h, In h (s_handles s) -> ref_ok (level_swap s i) (eref (snd h)).
+Proof.
+  exact (fun s i H Hk Hi => conj (level_swap_handles s i) (level_swap_handle_ok s i H Hk Hi)).
+Qed.
+Print Assumptions C08_level_swap_handles.
+
+(* nothing but the two levels is touched: nodes of the other levels keep id, level and
+   children, and no node appears there *)
+Theorem C08_level_swap_untouched : forall s i,
+  WF s -> s_kind s = KBdd -> S i < nlevels s ->
+  forall id nd, nlevel nd <> i -> nlevel nd <> S i ->
+    (find_node s id = Some nd <-> find_node (level_swap s i) id = Some nd).
+Proof.
+  exact (fun s i H Hk Hi id nd A B =>
+           conj (fun E => level_swap_untouched s i H Hk Hi id nd E A B)
+                (fun E => level_swap_untouched_rev s i H Hk Hi id nd E A B)).
+Qed.
+Print Assumptions C08_level_swap_untouched.
+
+(* the only nodes that disappear are nodes of the old lower level that were children of
+   rewritten nodes and are referenced by no stored node and no handle afterwards *)
+Theorem C08_level_swap_removed_only : forall s i,
+  WF s -> s_kind s = KBdd -> S i < nlevels s ->
+  forall id nd, find_node s id = Some nd -> find_node (level_swap s i) id = None ->
+    nlevel nd = S i /\ In id (dropped_children s i)
+    /\ referenced (swap_nodes s i) (s_handles s) id = false.
+Proof. exact level_swap_removed_only. Qed.
+Print Assumptions C08_level_swap_removed_only.
+
+(* whatever a stored node of the result refers to is stored in the result *)
+Theorem C08_level_swap_child_ok : forall s i,
+  WF s -> s_kind s = KBdd -> S i < nlevels s ->
+  forall id nd e, find_node (level_swap s i) id = Some nd -> In e (nchildren nd) ->
+    ref_ok (level_swap s i) (eref e).
+Proof. exact level_swap_child_ok. Qed.
+Print Assumptions C08_level_swap_child_ok.
+
+(* every edge stored before and after denotes the same function of the LEVELS, with the
+   entries of the two levels exchanged *)
+Theorem C08_level_swap_sem_levels : forall s i,
+  WF s -> s_kind s = KBdd -> S i < nlevels s ->
+  forall e c, ref_ok s (eref e) -> ref_ok (level_swap s i) (eref e) -> choice_ok s c ->
+    sem_edge (level_swap s i) e (swap_choice i c) = sem_edge s e c.
+Proof. exact level_swap_sem_levels. Qed.
+Print Assumptions C08_level_swap_sem_levels.
+
+(* headline: the Boolean function over the VARIABLES is unchanged *)
+Theorem C08_level_swap_sem_vars : forall s i,
+  WF s -> s_kind s = KBdd -> S i < nlevels s ->
+  forall e (a : nat -> bool), ref_ok s (eref e) -> ref_ok (level_swap s i) (eref e) ->
+    eval_vars (level_swap s i) e a = eval_vars s e a.
+Proof. exact level_swap_sem_vars. Qed.
+Print Assumptions C08_level_swap_sem_vars.
+
+(* in particular every handle (its value is defined) *)
+Theorem C08_level_swap_handles_vars : forall s i,
+  WF s -> s_kind s = KBdd -> S i < nlevels s ->
+  forall h (a : nat -> bool), In h (s_handles s) ->
+    eval_vars (level_swap s i) (snd h) a = eval_vars s (snd h) a
+    /\ exists v, eval_vars s (snd h) a = Some v.
+Proof. exact level_swap_handles_vars. Qed.
+Print Assumptions C08_level_swap_handles_vars.
+
+(** ** sequences of adjacent swaps; set_var_order *)
+
+Theorem C08_swaps_fold : forall sw s,
+  WF s -> s_kind s = KBdd -> Forall (fun k => S k < nlevels s) sw ->
+  let s' := fold_left level_swap sw s in
+  WF s' /\ s_kind s' = KBdd /\ nlevels s' = nlevels s /\ s_handles s' = s_handles s
+  /\ s_l2v s' = replay sw (s_l2v s)
+  /\ (forall h a, In h (s_handles s) ->
+        eval_vars s' (snd h) a = eval_vars s (snd h) a /\ exists v, eval_vars s (snd h) a = Some v).
+Proof. exact swaps_fold. Qed.
+Print Assumptions C08_swaps_fold.
+
+(* set_var_order as sort_order + bubble_sort + one level swap per reported index: the result is
+   well-formed, every handle denotes the same function of the variables, every variable sits on
+   the level sort_order assigns to its old level, and the number of swaps is the number of
+   inversions of that target (minimal: C08_sort_order_min_inversions) *)
+Theorem C08_set_var_order_model_correct : forall s order,
+  WF s -> s_kind s = KBdd -> NoDup order -> Forall (fun v => v < nlevels s) order ->
+  let s' := set_var_order_model s order in
+  let target := sort_order (nlevels s) (map (fun v => nth v (s_v2l s) 0) order) in
+  WF s' /\ s_kind s' = KBdd /\ nlevels s' = nlevels s /\ s_handles s' = s_handles s
+  /\ (forall h a, In h (s_handles s) ->
+        eval_vars s' (snd h) a = eval_vars s (snd h) a /\ exists v, eval_vars s (snd h) a = Some v)
+  /\ (forall v, v < nlevels s -> nth v (s_v2l s') 0 = nth (nth v (s_v2l s) 0) target 0)
+  /\ length (snd (bubble_sort target)) = inv target.
+Proof. exact set_var_order_model_correct. Qed.
+Print Assumptions C08_set_var_order_model_correct.
+
+(* the variables named in the request end up in the requested relative order *)
+Theorem C08_set_var_order_model_respects : forall s order,
+  WF s -> s_kind s = KBdd -> NoDup order -> Forall (fun v => v < nlevels s) order ->
+  forall a b, a < b < length order ->
+    nth (nth a order 0) (s_v2l (set_var_order_model s order)) 0
+    < nth (nth b order 0) (s_v2l (set_var_order_model s order)) 0.
+Proof. exact set_var_order_model_respects. Qed.
+Print Assumptions C08_set_var_order_model_respects.
+
+(* the reordered diagram is canonical: handles are the same edge iff they denote the same function *)
+Theorem C08_set_var_order_model_canonical : forall s order,
+  WF s -> s_kind s = KBdd -> NoDup order -> Forall (fun v => v < nlevels s) order ->
+  forall h1 h2, In h1 (s_handles s) -> In h2 (s_handles s) ->
+    (snd h1 = snd h2 <->
+     forall c, choice_ok (set_var_order_model s order) c ->
+       sem_edge (set_var_order_model s order) (snd h1) c = sem_edge (set_var_order_model s order) (snd h2) c).
+Proof. exact set_var_order_model_canonical. Qed.
+Print Assumptions C08_set_var_order_model_canonical.
+
+(* the hypotheses are satisfiable and the swap does something: three variables, two handles;
+   swapping levels 0 and 1 rewrites both nodes of level 0, creates two nodes and removes two *)
+Theorem C08_level_swap_example :
+  WF ex_swap /\ s_kind ex_swap = KBdd /\ 1 < nlevels ex_swap
+  /\ dep_ids ex_swap 0 = [5; 3]%positive
+  /\ find_node (level_swap ex_swap 0) 2 = None
+  /\ find_node (level_swap ex_swap 0) 3 = Some (mkNode 0 [ex_e (RN 7); ex_e (RN 1)] 0 1)
+  /\ find_node (level_swap ex_swap 0) 7 = Some (mkNode 1 [ex_e (RT 1); ex_e (RN 1)] 1 0)
+  /\ s_v2l (set_var_order_model ex_swap [2; 1; 0]) = [2; 1; 0]
+  /\ NoDup [2; 1; 0] /\ Forall (fun v => v < nlevels ex_swap) [2; 1; 0].
+Proof. exact ex_swap_all. Qed.
+Print Assumptions C08_level_swap_example.
